@@ -248,27 +248,32 @@ Section WithOrder.
     | S n', h :: t => h :: set_nth n' x t
     end.
 
-  (* processResult; state = (cacheStatuses, ws.status, pending updates); returns callbacks made *)
-  Definition flush (i : nat) (pend : list upd) : list out := map (OUpd i) pend.
-  Definition proc_one (i : nat) (s : list st * st * list upd) (r : result) : (list st * st * list upd) * list out :=
+  (* watcherSyncer.run / processResult.  What arrives on the results channel is an arbitrary interleaving of the
+     caches' results; [SFlush] marks the moments when the consolidation loop found the channel empty (or hit its
+     batch limit) and called sendUpdates.  State = (cacheStatuses, ws.status, pending updates). *)
+  Inductive sev := SRes (i : nat) (r : result) | SFlush.
+  Definition sstate3 := (list st * st * list (nat * upd))%type.
+  Definition flush (pend : list (nat * upd)) : list out := map (fun iu => OUpd (fst iu) (snd iu)) pend.
+  Definition proc_one (s : sstate3) (e : sev) : sstate3 * list out :=
     let '(cs, ws, pend) := s in
-    match r with
-    | ResUpd us => ((cs, ws, pend ++ us), [])
-    | ResBackendErr => ((cs, ws, []), flush i pend ++ [OSyncFailed])
-    | ResParseErr k => ((cs, ws, []), flush i pend ++ [OParseFailed i k])
-    | ResStatus v =>
+    match e with
+    | SFlush => ((cs, ws, []), flush pend)
+    | SRes i (ResUpd us) => ((cs, ws, pend ++ map (pair i) us), [])
+    | SRes i ResBackendErr => ((cs, ws, []), flush pend ++ [OSyncFailed])
+    | SRes i (ResParseErr k) => ((cs, ws, []), flush pend ++ [OParseFailed i k])
+    | SRes i (ResStatus v) =>
         let cs' := set_nth i v cs in
         let n := agg cs' in
-        if st_eqb n ws then ((cs', ws, pend), []) else ((cs', n, []), flush i pend ++ [OStatus n])
+        if st_eqb n ws then ((cs', ws, pend), []) else ((cs', n, []), flush pend ++ [OStatus n])
     end.
-  Fixpoint proc (i : nat) (s : list st * st * list upd) (rs : list result) : (list st * st * list upd) * list out :=
-    match rs with
+  Fixpoint proc (s : sstate3) (es : list sev) : sstate3 * list out :=
+    match es with
     | [] => (s, [])
-    | r :: rs' => let '(s1, o1) := proc_one i s r in let '(s2, o2) := proc i s1 rs' in (s2, o1 ++ o2)
+    | e :: es' => let '(s1, o1) := proc_one s e in let '(s2, o2) := proc s1 es' in (s2, o1 ++ o2)
     end.
   (* all results of one step of cache i, then the end-of-batch sendUpdates *)
   Definition proc_all (i : nat) (cs : list st) (ws : st) (rs : list result) : list st * st * list out :=
-    let '((cs', ws', pend), o) := proc i (cs, ws, []) rs in (cs', ws', o ++ flush i pend).
+    let '((cs', ws', _), o) := proc (cs, ws, []) (map (SRes i) rs ++ [SFlush]) in (cs', ws', o).
 
   Definition syncer_step (gs : list cfg) (s : syncer) (i : nat) (tick : bool) (r : resp) : option (syncer * list out) :=
     match nth_error gs i, nth_error (caches s) i with
